@@ -79,8 +79,31 @@ def real_time_counter(n):
     return _TC_CACHE[n]
 
 
+END_ARG_PROBLEM = []  # filled when the call-site expression cannot be evaluated in the stub namespace
+
+
 def summary_end_date(n):
-    return eval(summary_end_arg_expr(), {}, {"self": _Self(real_time_counter(n)[0])})
+    """the date LdarSim.run_simulation hands to gen_summary_emis_data, evaluated from the call-site
+    expression with the names ldar_sim.py itself has in scope; if the expression uses anything else the
+    adapter falls back to the time counter after the loop and records the problem (the check reports a
+    broken correspondence and the whole-run stage looks for the failing input)"""
+    import datetime as _dt
+
+    tc = real_time_counter(n)[0]
+    env = {"date": _dt.date, "timedelta": _dt.timedelta, "datetime": _dt.datetime, "np": __import__("numpy"),
+           "pd": __import__("pandas")}
+    try:
+        out = eval(summary_end_arg_expr(), env, {"self": _Self(tc)})
+        if isinstance(out, _dt.datetime):
+            out = out.date()
+        if not isinstance(out, _dt.date):
+            raise TypeError("not a date: %r" % (out,))
+        return out
+    except Exception as e:  # noqa: BLE001
+        if not END_ARG_PROBLEM:
+            END_ARG_PROBLEM.append("ldar_sim.py: end-date argument `%s` of gen_summary_emis_data could not be "
+                                   "evaluated by the adapter (%s: %s)" % (summary_end_arg_expr(), type(e).__name__, e))
+        return tc.current_date
 
 
 def simulated_days(n):
